@@ -67,8 +67,11 @@ CHECKS = {
         'not) the model of __zipwrite yields: mimetype as first entry, stored, no extra field, exactly the media type; the four required '
         'members; manifest file rows = the members other than mimetype and the manifest, in order; the root row and every object-folder '
         'row carry the right media type; every picture is present byte-identical under owner-folder + returned name with its media type. '
-        'No-duplicate member names needs distinct names in the input (an explicit picture name equal to a reserved member name is a '
-        'recorded finding). Tied by correspondence of member order, STORED flags, bytes and manifest rows, and by an oracle reading the '
+        'No member name twice (C03_no_member_twice): a member name is folder ++ local name; when the (folder, local name) pairs of what the '
+        'library names itself are distinct, folders have the shape addObject gives them and no local name starts like a folder '
+        '(C03_names_injective: then distinct pairs are distinct names), and the opaque extra files are called like nothing else, no two '
+        'members have one name; the three premises are decided by extracted checkers (coq/model/PackageCheck.v) on the model image of every '
+        'real document the check saves, and both recorded findings of this clause are inputs on which the first premise is false. Tied by correspondence of member order, STORED flags, bytes and manifest rows, and by an oracle reading the '
         'raw first local header, the central directory and the manifest independently.',
    note='Axioms: none. XML part payloads are symbolic here (their content is C01/C02/C10); zipfile\'s byte layout is trusted. Recorded findings: a picture named like a reserved member; an object attached before its parent (the C16 finding seen from here).',
    tech='Coq proof over a model of the package writer (induction on the object tree) + correspondence',
@@ -242,9 +245,12 @@ CHECKS = {
    text='Proof (Coq): for every string and every pre-existing child list, extractText(addTextToElement(e,s)) = before ++ s; '
         'emitted text nodes hold no TAB/LF/double blank and are never adjacent; elements allowing text,s,tab,line-break accept '
         'every string. Unbounded (induction over the string with the encoder state generalised). Tied to teletype.py by an '
-        'exhaustive+random correspondence of the encoder output and of the decoder; the save/load clause is the C02 round trip '
-        'plus a sampled real save()+load().',
-   note='Axioms: none (all four theorems closed under the global context). Model: coq/model/Teletype.v (hand-written; the '
+        'exhaustive+random correspondence of the encoder output and of the decoder; the save/load clause: reparse (what a parser '
+        'returns for a child list: CDATA as text, neighbouring text as one node, empty text gone) leaves extractText unchanged on every '
+        'CDATA-free tree, the nodes of one call are a fixed point of it, hence the string is recovered from the reloaded element after '
+        'whatever children it had (C17_reparse_extract, C17_reparse_fixpoint, C17_saved); reparse is tied to real save()+load() on '
+        'arbitrary child trees, the characters themselves are the C02 round trip.',
+   note='Axioms: none (all seven theorems closed under the global context). Model: coq/model/Teletype.v (hand-written; the '
         'inner blank-counting loop is a state transition). Recorded finding: the save/load clause meets the C02 finding (discouraged code points come back as U+FFFD).',
    tech='Coq proof by induction (closed under the global context) + extracted-model correspondence',
    ref='5/C17'),
